@@ -60,6 +60,8 @@ func hashHeader(hd http.Header) uint64 {
 	return h.Sum64()
 }
 
+const c13ReadMax = 2 << 20
+
 type c13State struct {
 	run       *ev.Run
 	srv       *svc.Server
@@ -75,6 +77,7 @@ type c13Client struct {
 	name  string
 	proto string
 	http2 bool
+	gzip  bool
 	cs    *svc.ClientSet
 }
 
@@ -130,7 +133,24 @@ func c13(run *ev.Run) int {
 	})
 	defer connect.VerifSetYield(nil)
 	g0, _, r0, _ := connect.VerifPoolStats()
-	st.srv = svc.NewServer()
+	// One handler set with a read limit (so that over-limit compressed messages
+	// exercise the rejection paths of the shared decompressor pools), behind a
+	// front that can strip the HTTP trailers of a response (a misbehaving
+	// intermediary: gRPC calls then end without a Grpc-Status).
+	reg := svc.NewRegistry()
+	hs := svc.Handlers(reg, connect.WithReadMaxBytes(c13ReadMax))
+	mux := svc.Mux(hs)
+	front := http.HandlerFunc(func(w http.ResponseWriter, req *http.Request) {
+		mux.ServeHTTP(w, req)
+		if req.Header.Get("X-Verif-Strip") != "" {
+			for k := range w.Header() {
+				if strings.HasPrefix(k, http.TrailerPrefix) {
+					delete(w.Header(), k)
+				}
+			}
+		}
+	})
+	st.srv = svc.NewServerWith(reg, hs, front)
 	defer st.srv.Close()
 	for _, p := range svc.Protocols {
 		for _, c := range svc.Codecs {
@@ -142,7 +162,7 @@ func c13(run *ev.Run) int {
 					} else {
 						opts = append(opts, connect.WithCompressMinBytes(4096))
 					}
-					st.clients = append(st.clients, &c13Client{name: fmt.Sprintf("%s/%s/gz=%v/h2=%v", p, c, gz, h2), proto: p, http2: h2, cs: st.srv.RawClients(h2, opts...)})
+					st.clients = append(st.clients, &c13Client{name: fmt.Sprintf("%s/%s/gz=%v/h2=%v", p, c, gz, h2), proto: p, http2: h2, gzip: gz, cs: st.srv.RawClients(h2, opts...)})
 				}
 			}
 		}
@@ -231,6 +251,14 @@ func (s *c13State) oneCall(r *rand.Rand, id uint64, procs int) {
 	fail := r.Intn(4) == 0
 	n := 1 + r.Intn(3)
 	idStr := strconv.FormatUint(id, 10)
+	switch {
+	case c.gzip && r.Intn(25) == 0:
+		s.oversizeCall(r, c, id, procs)
+		return
+	case c.proto == "grpc" && r.Intn(12) == 0:
+		s.strippedCall(r, c, id, procs)
+		return
+	}
 	// what this call sends and expects back: reply ids are a function of id
 	var sends, replies []*gen.Msg
 	for i := 0; i < n; i++ {
@@ -404,12 +432,15 @@ type c13Outcome struct {
 }
 
 // drive is a client driver that keeps the objects handed out by the API.
-func (s *c13State) drive(c *c13Client, kind svc.Kind, callID, idStr string, id uint64, sends []*gen.Msg) *c13Outcome {
+func (s *c13State) drive(c *c13Client, kind svc.Kind, callID, idStr string, id uint64, sends []*gen.Msg, extra ...string) *c13Outcome {
 	o := &c13Outcome{}
 	ctx := context.Background()
 	set := func(h http.Header) {
 		h.Set(wire.CallHeader, callID)
 		h.Set("X-Verif-Id", idStr)
+		for i := 0; i+1 < len(extra); i += 2 {
+			h.Set(extra[i], extra[i+1])
+		}
 	}
 	take := func(m *gen.Msg) {
 		o.msgs = append(o.msgs, proto.Clone(m).(*gen.Msg))
@@ -647,4 +678,70 @@ func (s *c13State) duplexCancel(id uint64, procs, b int) {
 			return
 		}
 	}
+}
+
+// oversizeCall sends a compressed message that is small on the wire but
+// exceeds the handler's read limit once decompressed: that call must fail with
+// the documented code, and nothing else may notice.
+func (s *c13State) oversizeCall(r *rand.Rand, c *c13Client, id uint64, procs int) {
+	run := s.run
+	kind := []svc.Kind{svc.Unary, svc.ClientStream}[r.Intn(2)]
+	idStr := strconv.FormatUint(id, 10)
+	prog := &svc.Program{StopOnRecvErr: true, Steps: []svc.Step{{Op: "recvall"}, {Op: "send", Msg: &gen.Msg{Id: id}}}}
+	call := s.srv.Reg.New("c13o", prog)
+	defer s.srv.Reg.Drop(call)
+	big := gen.New(id*16, c13ReadMax+(1<<20), true)
+	var cl *c13Outcome
+	ok, dump := watchdog(120*time.Second, func() { cl = s.drive(c, kind, call.ID, idStr, id, []*gen.Msg{big}) })
+	atomic.AddInt64(&s.done, 1)
+	run.Count("calls", 1)
+	run.Count("oversize.calls", 1)
+	run.Eval(fmt.Sprintf("%s|%s|oversize-compressed|procs=%d", c.name, kind, procs))
+	key := fmt.Sprintf("c13/oversize/%s/%s", c.name, kind)
+	if !ok {
+		run.Violation(key+"/hang", "call with an over-limit compressed message hung", trunc(dump, 30000))
+		return
+	}
+	if code := connect.CodeOf(cl.err); cl.err == nil || (code != connect.CodeInvalidArgument && code != connect.CodeResourceExhausted) {
+		run.Violation(key+"/not-rejected", "a message exceeding the read limit after decompression was not rejected with the documented code: "+errStr(cl.err), nil)
+	}
+}
+
+// strippedCall: the response's HTTP trailers are removed on the way, so the
+// gRPC call must fail - with an error that belongs to this call alone.
+func (s *c13State) strippedCall(r *rand.Rand, c *c13Client, id uint64, procs int) {
+	run := s.run
+	kind := []svc.Kind{svc.Unary, svc.ServerStream, svc.ClientStream}[r.Intn(3)]
+	idStr := strconv.FormatUint(id, 10)
+	prog := &svc.Program{Header: http.Header{"X-Echo-Id": {idStr}}, Steps: []svc.Step{{Op: "recvall"}, {Op: "send", Msg: &gen.Msg{Id: id}}}}
+	call := s.srv.Reg.New("c13s", prog)
+	defer s.srv.Reg.Drop(call)
+	var cl *c13Outcome
+	ok, dump := watchdog(120*time.Second, func() {
+		cl = s.drive(c, kind, call.ID, idStr, id, []*gen.Msg{{Id: id*16 + 1}}, "X-Verif-Strip", "1")
+	})
+	atomic.AddInt64(&s.done, 1)
+	run.Count("calls", 1)
+	run.Count("stripped_trailer.calls", 1)
+	run.Eval(fmt.Sprintf("%s|%s|stripped-trailers|procs=%d", c.name, kind, procs))
+	key := fmt.Sprintf("c13/stripped/%s/%s", c.name, kind)
+	if !ok {
+		run.Violation(key+"/hang", "call whose trailers were stripped hung", trunc(dump, 30000))
+		return
+	}
+	var ce *connect.Error
+	if !errors.As(cl.err, &ce) || ce.Code() == 0 {
+		run.Violation(key+"/not-failed", "gRPC call without a Grpc-Status trailer did not fail with a coded error: "+errStr(cl.err), nil)
+		return
+	}
+	if got := ce.Meta().Get("X-Echo-Id"); got != "" && got != idStr {
+		run.Violation(key+"/error-meta-crosstalk", fmt.Sprintf("error of call %s carries response header id %q of another call", idStr, got), nil)
+		return
+	}
+	e := ce
+	s.keep(&retained{what: "missing-status error", owner: id, hash: func() uint64 {
+		h := fnv.New64a()
+		fmt.Fprintf(h, "%s|%d|%d", e.Error(), e.Code(), hashHeader(e.Meta()))
+		return h.Sum64()
+	}})
 }
